@@ -227,6 +227,10 @@ func runC14(c *Ctx) {
 		}
 		c.Floor("C14.N3-every-outcome-notified", 3)
 	}
+	// the count notified is the number of blocks synced: the sync client hands every block it fetched to the hook —
+	// the hook loop runs to the end of the list whatever happens meanwhile (left early, a finished sync is notified
+	// with a smaller count and the remaining blocks are never reported)
+	hookLoopVisitsAll(c, "C14.N3-count-accumulates")
 	c.Floor("C14.N2-latest-before-event", 3)
 	c.Floor("C14.N5-event-fields", 2)
 	// callers of the success notifier pass the sync's own head and count
@@ -702,5 +706,46 @@ func syncedHeadRecorded(c *Ctx, rule string, sendFns []*ssa.Function) {
 					"success notification not tied to the sync that finished (wrong CID/count or reachable on error)")
 			})
 		}
+	}
+}
+
+// hookLoopVisitsAll: the loop in which the sync client calls the block hook is left only when the list of fetched
+// blocks is exhausted. Shared by C14 and C01.
+func hookLoopVisitsAll(c *Ctx, rule string) {
+	sites := c.CallsInPkg("dagsync/ipnisync", Op("dyncall", "", Field("blockHook", Any())))
+	n := 0
+	for _, cs := range sites {
+		call, ok := cs.In.(*ssa.Call)
+		if !ok {
+			continue
+		}
+		var loop *natLoop
+		for _, l := range naturalLoops(call.Parent()) {
+			if l.Body[call.Block()] && (loop == nil || len(l.Body) < len(loop.Body)) {
+				loop = l
+			}
+		}
+		if loop == nil {
+			continue
+		}
+		n++
+		bad := token.NoPos
+		for u := range loop.Body {
+			if u == loop.Head {
+				continue
+			}
+			for _, v := range u.Succs {
+				if !loop.Body[v] {
+					bad = u.Instrs[len(u.Instrs)-1].Pos()
+					if !bad.IsValid() {
+						bad = call.Pos()
+					}
+				}
+			}
+		}
+		c.Check(!bad.IsValid(), rule, c.short(call.Parent().String())+" › hook loop runs to the end", call.Pos(), "the loop over the fetched blocks is left only when they are exhausted", "the loop that hands fetched blocks to the hook can be left early (at "+c.pos(bad)+"): blocks that were fetched and stored are not reported, and the count notified is too small")
+	}
+	if n == 0 {
+		c.Unk(rule, "ipnisync › hook loop", token.NoPos, "no loop calling the block hook found")
 	}
 }
